@@ -381,6 +381,7 @@ type methodPlan struct {
 	overridden bool
 	inWire     []string // wire value per in field ("" = absent optional)
 	outWire    []string
+	outWire2   []string // values of the second reply in mode "more2" (optionals present before are absent now)
 }
 
 func emitProgram(i int, c *progCase, rng *rand.Rand) (string, int) {
@@ -436,6 +437,13 @@ func emitProgram(i int, c *progCase, rng *rand.Rand) (string, int) {
 		for _, f := range p.out {
 			p.outWire = append(p.outWire, wireValue(f.T[0], decls, rng, 0))
 		}
+		for k, f := range p.out {
+			v2 := wireValue(f.T[0], decls, rng, 0)
+			if p.outWire[k] != "" && resolvesToMaybe(f.T[0], decls) {
+				v2 = "" // present in the first reply, absent in the second
+			}
+			p.outWire2 = append(p.outWire2, v2)
+		}
 		plans = append(plans, p)
 	}
 	var sb strings.Builder
@@ -468,6 +476,22 @@ func emitProgram(i int, c *progCase, rng *rand.Rand) (string, int) {
 		}
 		for k, f := range p.out {
 			w("\tvar o%d %s\n\th.Decode(%q, &o%d)\n", k, goType(f.T[0]), p.outWire[k], k)
+		}
+		if len(p.out) > 0 {
+			// mode "more2": two replies with different values to a call that asked for more
+			w("\tif h.Mode(%q) == \"more2\" {\n", p.name)
+			for k, f := range p.out {
+				w("\t\tvar p%d %s\n\t\th.Decode(%q, &p%d)\n", k, goType(f.T[0]), p.outWire2[k], k)
+			}
+			w("\t\tc.Continues = true\n\t\tif err := c.Reply%s(ctx", p.name)
+			for k := range p.out {
+				w(", o%d", k)
+			}
+			w("); err != nil {\n\t\t\treturn err\n\t\t}\n\t\tc.Continues = false\n\t\treturn c.Reply%s(ctx", p.name)
+			for k := range p.out {
+				w(", p%d", k)
+			}
+			w(")\n\t}\n")
 		}
 		w("\treturn c.Reply%s(ctx", p.name)
 		for k := range p.out {
@@ -570,6 +594,38 @@ func emitProgram(i int, c *progCase, rng *rand.Rand) (string, int) {
 			w("\t\tif err != nil {\n\t\t\tev[\"err\"] = fmt.Sprintf(\"%%T %%v\", err, err)\n\t\t}\n\t\th.Emit(ev)\n\t}\n")
 		}
 	}
+	// a more-call answered twice: both replies arrive as the values the implementation gave, and the first
+	// reply's values are not touched by the arrival of the second
+	for _, p := range plans {
+		if !p.overridden || len(p.out) == 0 {
+			continue
+		}
+		ncalls++
+		w("\t{\n\t\th.SetMode(%q, \"more2\")\n", p.name)
+		args := ""
+		for k, f := range p.in {
+			w("\t\tvar a%d %s\n\t\th.Decode(%q, &a%d)\n", k, goType(f.T[0]), p.inWire[k], k)
+			args += fmt.Sprintf(", a%d", k)
+		}
+		w("\t\tok := false\n\t\tdetail := \"\"\n")
+		w("\t\trecv, err := q.%s().Send(ctx, conn, varlink.More%s)\n\t\tif err == nil {\n", p.name, args)
+		r1, r2 := "", ""
+		for k := range p.out {
+			r1 += fmt.Sprintf("x%d, ", k)
+			r2 += fmt.Sprintf("y%d, ", k)
+		}
+		w("\t\t\t%sfl1, err1 := recv(ctx)\n\t\t\t%sfl2, err2 := recv(ctx)\n", r1, r2)
+		w("\t\t\tok = err1 == nil && err2 == nil && fl1&varlink.Continues != 0 && fl2&varlink.Continues == 0\n")
+		w("\t\t\tif !ok {\n\t\t\t\tdetail = fmt.Sprintf(\"err1=%%v err2=%%v fl1=%%d fl2=%%d\", err1, err2, fl1, fl2)\n\t\t\t}\n")
+		for k, f := range p.out {
+			w("\t\t\t{\n\t\t\t\tvar want1, want2 %s\n\t\t\t\th.Decode(%q, &want1)\n\t\t\t\th.Decode(%q, &want2)\n", goType(f.T[0]), p.outWire[k], p.outWire2[k])
+			w("\t\t\t\tif !h.Equal(x%d, want1) {\n\t\t\t\t\tok = false\n\t\t\t\t\tdetail += \" first reply, field %s\"\n\t\t\t\t}\n", k, f.N)
+			w("\t\t\t\tif !h.Equal(y%d, want2) {\n\t\t\t\t\tok = false\n\t\t\t\t\tdetail += \" second reply, field %s\"\n\t\t\t\t}\n\t\t\t}\n", k, f.N)
+		}
+		w("\t\t} else {\n\t\t\tdetail = err.Error()\n\t\t}\n")
+		w("\t\th.TakeFrames(\"c2s\"); h.TakeFrames(\"s2c\"); h.Seen(%q)\n", p.name)
+		w("\t\th.Emit(map[string]interface{}{\"prog\": %d, \"method\": %q, \"mode\": \"more2\", \"result_ok\": ok, \"detail\": detail})\n\t}\n", i, p.name)
+	}
 	// dispositions that do not depend on the description's methods, and flag pass-through
 	first := ""
 	for _, p := range plans {
@@ -631,6 +687,13 @@ func nullableArgs(fs []jField, wire []string) string {
 		}
 	}
 	return out
+}
+
+func resolvesToMaybe(t jType, decls map[string]jType) bool {
+	for n := 0; t.K == "alias" && n < 10; n++ {
+		t = decls[t.A]
+	}
+	return t.K == "maybe"
 }
 
 func wireObject(fs []jField, wire []string) string {
